@@ -1,0 +1,60 @@
+//go:build verif
+
+package headers
+
+import "errors"
+
+// Verification hooks (build tag "verif" only): expose the unexported parsers
+// and their result types to the correspondence harness in /verif. No
+// behaviour of the package changes; without the tag this file is not compiled.
+
+// VerifParseRange runs parseRangeHeader. kind is one of "ok", "unit",
+// "value", "format", "multiple", "other".
+func VerifParseRange(s string) (start, end int64, kind string) {
+	rh, err := parseRangeHeader(s)
+	switch {
+	case err == nil:
+		return rh.start, rh.end, "ok"
+	case errors.Is(err, ErrInvalidRangeUnit):
+		return 0, 0, "unit"
+	case errors.Is(err, ErrInvalidRangeValue):
+		return 0, 0, "value"
+	case errors.Is(err, ErrInvalidRangeFormat):
+		return 0, 0, "format"
+	case errors.Is(err, ErrMultipleRangesNotSupported):
+		return 0, 0, "multiple"
+	}
+	return 0, 0, "other"
+}
+
+// VerifSliceSize runs rangeHeader{start,end}.SliceSize(size).
+func VerifSliceSize(start, end, size int64) (s, e int64, ok bool) {
+	s, e, err := rangeHeader{start: start, end: end}.SliceSize(size)
+	return s, e, err == nil
+}
+
+// VerifParseCacheControl runs parseCacheControl.
+func VerifParseCacheControl(s string) (noCache bool, maxAgeNanos int64, ok bool) {
+	cc, err := parseCacheControl(s)
+	if err != nil {
+		return false, 0, false
+	}
+	return cc.noCache, int64(cc.maxAge), true
+}
+
+// Accessors for the parsed directives (all value fields are unexported).
+func (hd *HeaderDirectives) VerifCacheControl() (present, noCache bool, maxAgeNanos int64) {
+	if !hd.CacheControl.IsPresent() {
+		return false, false, 0
+	}
+	cc := hd.CacheControl.Value()
+	return true, cc.noCache, int64(cc.maxAge)
+}
+
+func (hd *HeaderDirectives) VerifRange() (present bool, start, end int64) {
+	if !hd.Range.IsPresent() {
+		return false, 0, 0
+	}
+	r := hd.Range.Value()
+	return true, r.start, r.end
+}
